@@ -285,6 +285,71 @@ func run(c *fw.Ctx) {
 		}
 	}
 
+	// ---- A: results are independent objects -----------------------------------------
+	// convert, mutate the result in place (every map gets a key, every non-empty array/bytes gets its first element
+	// overwritten), convert an equal value again: the second result must not show the mutation (no shared state
+	// between conversions), in both directions
+	c.Family("A:aliasing", "every Go value of G (fresh copy each time) converted twice with the first result mutated in between; every uGO container of U converted to Go twice likewise")
+	aliasOne := func(g any) {
+		if !c.Next() {
+			return
+		}
+		c.Nontrivial()
+		want := goRepr(g)
+		for _, alt := range []bool{false, true} {
+			name, f := "ToObject", ugo.ToObject
+			if alt {
+				name, f = "ToObjectAlt", ugo.ToObjectAlt
+			}
+			o1, err, pan := protectObj(func() (ugo.Object, error) { return f(cloneGo(g)) })
+			if pan != nil || err != nil || o1 == nil {
+				continue // reported by family G
+			}
+			before := uv.Repr(o1)
+			mutateObj(o1)
+			o2, err, pan := protectObj(func() (ugo.Object, error) { return f(cloneGo(g)) })
+			if pan != nil || err != nil || o2 == nil {
+				c.Violation("A|"+name+"|"+want, fmt.Sprintf("second %s(%s) fails: %v %v", name, want, err, pan), nil)
+				continue
+			}
+			if after := uv.Repr(o2); after != before {
+				c.Violation("A|"+name+"|"+want, fmt.Sprintf("%s(%s) gives %s, but after an earlier result of the same conversion was modified in place it gives %s", name, want, before, after), nil)
+			}
+		}
+		// the other direction
+		o, err, pan := protectObj(func() (ugo.Object, error) { return ugo.ToObject(cloneGo(g)) })
+		if pan != nil || err != nil || o == nil {
+			return
+		}
+		v1, pan1 := protectAny(func() any { return ugo.ToInterface(o) })
+		if pan1 != nil {
+			return
+		}
+		before := goRepr(v1)
+		mutateGo(v1)
+		o, _, _ = protectObj(func() (ugo.Object, error) { return ugo.ToObject(cloneGo(g)) })
+		v2, pan2 := protectAny(func() any { return ugo.ToInterface(o) })
+		if pan2 != nil {
+			return
+		}
+		if after := goRepr(v2); after != before {
+			c.Violation("A|ToInterface|"+want, fmt.Sprintf("ToInterface of %s gives %s, but after an earlier result was modified in place it gives %s", want, before, after), nil)
+		}
+	}
+	for _, g := range gl {
+		aliasOne(g)
+	}
+	for _, a := range gl {
+		aliasOne([]any{a})
+		aliasOne(map[string]any{"a": a})
+		for _, b := range gl {
+			aliasOne([]any{a, b})
+			aliasOne(map[string]any{"a": a, "": b})
+			aliasOne([]any{[]any{a}, map[string]any{"k": b}})
+			aliasOne(map[string]any{"x": []any{a, b}})
+		}
+	}
+
 	// ---- W: other widths ----------------------------------------------------------
 	c.Family("W:widths", "int,int8..int32,uint..uint32,uintptr,float32,byte at their boundaries, alone and nested")
 	type wcase struct {
@@ -520,4 +585,85 @@ func numRepr(o ugo.Object) string {
 		return uv.FloatRepr(float64(v))
 	}
 	return uv.Repr(o)
+}
+
+// cloneGo deep-copies the container shapes used by the enumerations.
+func cloneGo(v any) any {
+	switch v := v.(type) {
+	case []any:
+		if v == nil {
+			return []any(nil)
+		}
+		out := make([]any, len(v))
+		for i := range v {
+			out[i] = cloneGo(v[i])
+		}
+		return out
+	case map[string]any:
+		if v == nil {
+			return map[string]any(nil)
+		}
+		out := make(map[string]any, len(v))
+		for k, e := range v {
+			out[k] = cloneGo(e)
+		}
+		return out
+	case []byte:
+		if v == nil {
+			return []byte(nil)
+		}
+		return append([]byte{}, v...)
+	}
+	return v
+}
+
+// mutateObj modifies every container reachable from o in place.
+func mutateObj(o ugo.Object) {
+	switch v := o.(type) {
+	case ugo.Map:
+		for _, e := range v {
+			mutateObj(e)
+		}
+		v["__mutated"] = ugo.Int(1)
+	case *ugo.SyncMap:
+		for _, e := range v.Value {
+			mutateObj(e)
+		}
+		v.Value["__mutated"] = ugo.Int(1)
+	case ugo.Array:
+		for _, e := range v {
+			mutateObj(e)
+		}
+		if len(v) > 0 {
+			v[0] = ugo.String("mutated")
+		}
+	case ugo.Bytes:
+		if len(v) > 0 {
+			v[0] = 'M'
+		}
+	}
+}
+
+// mutateGo modifies every container reachable from v in place.
+func mutateGo(v any) {
+	switch v := v.(type) {
+	case map[string]any:
+		for _, e := range v {
+			mutateGo(e)
+		}
+		if v != nil {
+			v["__mutated"] = 1
+		}
+	case []any:
+		for _, e := range v {
+			mutateGo(e)
+		}
+		if len(v) > 0 {
+			v[0] = "mutated"
+		}
+	case []byte:
+		if len(v) > 0 {
+			v[0] = 'M'
+		}
+	}
 }
